@@ -3902,7 +3902,7 @@ def sdp(c, Gl = None, hl = None, Gs = None, hs = None, A = None, b = None,
     ms = [ int(math.sqrt(G.size[0])) for G in Gs ]
     a = [ k for k in range(len(ms)) if ms[k]**2 != Gs[k].size[0] ]
     if a: raise TypeError("the squareroot of the number of rows in "\
-        "'Gs[%d]' is not an integer" %k)
+        "'Gs[%d]' is not an integer" %a[0])
     if hs is None: hs = []
     if not isinstance(hs,list) or len(hs) != len(ms) \
       or [ h for h in hs if not isinstance(h,(matrix,spmatrix)) or h.typecode != 'd' ]:
